@@ -40,4 +40,59 @@ macro "hm_simp" "[" ts:Lean.Parser.Tactic.simpLemma,* "]" : tactic =>
       Functor.map, StateT.map, get, getThe, MonadStateOf.get, StateT.get, throw, throwThe, MonadExceptOf.throw,
       tryCatch, tryCatchThe, MonadExceptOf.tryCatch, ExceptT.tryCatch, $ts,*])
 
+/-- run an `HM` computation from a state -/
+def runS {α} (m : HM Val α) (s : HSt Val) : Except Err α × HSt Val := (ExceptT.run m).run s
+
+theorem runS_bind {α β} (m : HM Val α) (f : α → HM Val β) (s : HSt Val) :
+    runS (m >>= f) s = match runS m s with
+      | (.ok a, s') => runS (f a) s'
+      | (.error e, s') => (.error e, s') := by
+  simp only [runS, ExceptT.run, bind, ExceptT.bind, ExceptT.mk, StateT.bind, StateT.run, ExceptT.bindCont]
+  cases h : m s with
+  | mk a s' => cases a <;> simp [pure, StateT.pure]
+
+theorem runS_pure {α} (a : α) (s : HSt Val) : runS (pure a : HM Val α) s = (.ok a, s) := rfl
+
+/-- a loop that only emits: `for x in l: observer.on_next(mk x)` -/
+theorem emit_loop (mk : Val → Ev Val) (l : List Val) (s : HSt Val) :
+    runS (forIn l PUnit.unit (fun x (_ : PUnit) => do emit (mk x); pure (ForInStep.yield PUnit.unit))) s
+      = (.ok PUnit.unit, { s with out := s.out ++ l.map mk }) := by
+  induction l generalizing s with
+  | nil => simp [runS_pure]
+  | cons x l ih =>
+    have hemit : ∀ e, runS (emit e) s = (.ok (), { s with out := s.out ++ [e] }) := fun e => rfl
+    simp only [List.forIn_cons, runS_bind, hemit, runS_pure, ih, List.map_cons, List.append_assoc, List.singleton_append]
+
+theorem runS_getState (sid : Nat) (k : Key) (s : HSt Val) (m : Option Val) (h : s.stores sid k.idx = some m) :
+    runS (getState sid k) s = (.ok m, s) := by
+  simp only [runS, getState, ExceptT.run, bind, ExceptT.bind, ExceptT.mk, StateT.bind, StateT.run, ExceptT.bindCont, get, getThe,
+    MonadStateOf.get, liftM, monadLift, MonadLift.monadLift, ExceptT.lift, StateT.get, Functor.map, StateT.map, pure, StateT.pure,
+    h, ExceptT.pure]
+
+theorem runS_setState (sid : Nat) (k : Key) (v : Val) (s : HSt Val) :
+    runS (setState sid k v) s = (.ok (), { s with stores := updSlot s.stores sid k.idx (some (some v)) }) := rfl
+theorem runS_addKey (sid : Nat) (k : Key) (d : Option Val) (s : HSt Val) :
+    runS (addKey sid k d) s = (.ok (), { s with stores := updSlot s.stores sid k.idx (some d) }) := rfl
+theorem runS_delKey (sid : Nat) (k : Key) (s : HSt Val) :
+    runS (delKey sid k) s = (.ok (), { s with stores := updSlot s.stores sid k.idx none }) := rfl
+theorem runS_emit (e : Ev Val) (s : HSt Val) : runS (emit e) s = (.ok (), { s with out := s.out ++ [e] }) := rfl
+theorem runS_unmark (v : Val) (s : HSt Val) : runS (unmark (some v)) s = (.ok v, s) := rfl
+theorem runS_ite {α} (c : Prop) [Decidable c] (a b : HM Val α) (s : HSt Val) :
+    runS (if c then a else b) s = if c then runS a s else runS b s := by split <;> rfl
+
+theorem runH_eq (m : HM Val Unit) (stores : Nat → Nat → Slot Val) :
+    runH m stores = ((runS m { stores := stores, out := [] }).1, (runS m { stores := stores, out := [] }).2.stores,
+      (runS m { stores := stores, out := [] }).2.out) := rfl
+
+/-- `for _ in range(size): observer.on_next(mk v)` -/
+theorem emit_const_loop (mk : Val → Ev Val) (a : Val) (l : List Nat) (s : HSt Val) :
+    runS (forIn l PUnit.unit (fun (_ : Nat) (_ : PUnit) => do
+        let t ← unmark (some a); emit (mk t); pure (ForInStep.yield PUnit.unit))) s
+      = (.ok PUnit.unit, { s with out := s.out ++ List.replicate l.length (mk a) }) := by
+  induction l generalizing s with
+  | nil => simp [runS_pure]
+  | cons x l ih =>
+    simp only [List.forIn_cons, runS_bind, runS_unmark, runS_emit, runS_pure, ih, List.length_cons, List.replicate_succ,
+      List.append_assoc, List.singleton_append]
+
 end Rx
